@@ -50,5 +50,14 @@ os.makedirs(dst, exist_ok=True)
 for f in ("patch.diff", "demo.py", "notes.md"):
     if os.path.exists(os.path.join(src, f)) and os.path.abspath(src) != os.path.abspath(dst):
         shutil.copy(os.path.join(src, f), dst)
+# what the change needs in order to manifest: the seeding agent's own words (notes.md)
+nt = os.path.join(dst, "notes.md")
+if os.path.exists(nt):
+    import re
+    paras = [re.sub(r"\s+", " ", p).strip() for p in re.split(r"\n\s*\n|\n[-*] ", open(nt).read())]
+    hit = [p for p in paras if re.search(r"\bneed|manifest|only show|shows only|requires", p, re.I)]
+    if hit:
+        meta["needs"] = hit[0][:600]
+        meta["needs_source"] = "notes.md (written by the seeding agent)"
 json.dump(meta, open(os.path.join(dst, "meta.json"), "w"), indent=1)
 print(json.dumps(meta, indent=1))
